@@ -1140,7 +1140,9 @@ def run(tier: str, seed: int, replay=None) -> int:
         cdir = core.VERIF / "corpus" / PROP
         for f in sorted(cdir.glob("*.json")) if cdir.is_dir() else []:
             d = json.loads(f.read_text())
-            if "case" in d:
+            if d.get("family") == "seq":            # a recorded two-evaluation scenario (must pass)
+                seq_jobs.append((normalise(d["case"]), d["scenario"]))
+            elif "case" in d:
                 cases.append(normalise(d["case"]))
                 origin.append(f"corpus:{f.name}")
         n = 420 if tier == "quick" else 6000
